@@ -143,6 +143,16 @@ fn main() {
                 }
                 i += 1;
             }
+            // watchdog: a hang (e.g. a library change that loops forever) is not a verdict
+            let limit = std::env::var("FFV_WATCHDOG_S").ok().and_then(|s| s.parse::<u64>().ok()).unwrap_or(match tier {
+                Tier::Quick => 1800,
+                Tier::Thorough => 8 * 3600,
+            });
+            std::thread::spawn(move || {
+                std::thread::sleep(std::time::Duration::from_secs(limit));
+                eprintln!("WATCHDOG: {} did not finish within {} s - inconclusive (exit 2), not a violation", prop, limit);
+                std::process::exit(2);
+            });
             std::process::exit(run_check(prop, tier, secondary, only));
         }
         "replay" => {
